@@ -101,18 +101,42 @@ def coerce_runtime(t, v):
     return v
 
 
+class InvalidLiteral(Exception):
+    """The literal cannot be coerced with these variable values (spec: a field error)."""
+
+
+def _missing(node, variables):
+    return isinstance(node, VariableNode) and node.name.value not in variables
+
+
 def coerce_literal(t, node, variables):
-    """Coerce an AST literal; `variables` are the coerced variable values."""
+    """Coerce an AST literal; `variables` are the coerced variable values.
+
+    Variables may sit at list-item and input-field positions: a variable without a runtime
+    value is null in a list and "not provided" in an input object; null (or nothing) at a
+    non-null position makes the whole literal invalid."""
     if isinstance(node, VariableNode):
-        # only reached for variables nested in lists: missing => null
-        return variables.get(node.name.value, None)
+        value = variables.get(node.name.value)
+        if value is None and is_non_null_type(t):
+            raise InvalidLiteral
+        return value
     if is_non_null_type(t):
+        if isinstance(node, NullValueNode):
+            raise InvalidLiteral
         return coerce_literal(t.of_type, node, variables)
     if isinstance(node, NullValueNode):
         return None
     if is_list_type(t):
         if isinstance(node, ListValueNode):
-            return [coerce_literal(t.of_type, x, variables) for x in node.values]
+            out = []
+            for x in node.values:
+                if _missing(x, variables):
+                    if is_non_null_type(t.of_type):
+                        raise InvalidLiteral
+                    out.append(None)
+                else:
+                    out.append(coerce_literal(t.of_type, x, variables))
+            return out
         return [coerce_literal(t.of_type, node, variables)]
     if is_input_object_type(t):
         provided = {f.name.value: f.value for f in node.fields}
@@ -120,14 +144,11 @@ def coerce_literal(t, node, variables):
         for fname, f in t.fields.items():
             key = getattr(f, "out_name", None) or fname
             vnode = provided.get(fname, UNSET)
-            if vnode is not UNSET and isinstance(vnode, VariableNode):
-                if vnode.name.value in variables:
-                    out[key] = variables[vnode.name.value]
-                    continue
-                vnode = UNSET  # a variable without value counts as not provided
-            if vnode is UNSET:
+            if vnode is UNSET or _missing(vnode, variables):
                 if f.ast_node is not None and f.ast_node.default_value is not None:
                     out[key] = coerce_literal(f.type, f.ast_node.default_value, {})
+                elif is_non_null_type(f.type):
+                    raise InvalidLiteral
                 continue
             out[key] = coerce_literal(f.type, vnode, variables)
         return out
@@ -188,7 +209,10 @@ def coerce_args(arg_defs, node, variables):
             elif is_non_null_type(t):
                 raise ArgError(name)
             continue
-        out[key] = coerce_literal(t, vnode, variables)
+        try:
+            out[key] = coerce_literal(t, vnode, variables)
+        except InvalidLiteral:
+            raise ArgError(name) from None
     return out
 
 
